@@ -310,3 +310,147 @@ Proof.
       [cbv [gen_tp2_5]; gm_go|norm_app2|norm_app2|discriminate|cbn [gget Nat.eqb app]; reflexivity|norm_app2
       |cbn [gget Nat.eqb app]; reflexivity|norm_app2|norm_app2|exact Npre|exact Npost].
 Qed.
+
+(* ====================================================================== *)
+(* k --flag v                                            _FORMAT_PATTERNS_2[9] *)
+(* ====================================================================== *)
+Definition shapeR_cmd2 (kcs : list cset) : asub :=
+  [AKey kcs; ARun dig_cs false; ARun py_space false; AOne [(45, 45)]; ARun [(45, 45)] false; ARun cs_flag true;
+   ARun py_space true; ARun cs_nonspace true; ARun py_space false].
+Lemma checks_cmd2 : forallb (fun k => check_others k (shape_of (shapeR_cmd2 (kcs_of k))) 9 && check_self k (shapeR_cmd2 (kcs_of k)) 9) gen_keys = true.
+Proof. vm_cast_no_check (eq_refl true). Qed.
+
+Definition msg_cmd2 (pre K d w1 dash fl w2 x w3 post : str) : str := pre ++ K ++ d ++ w1 ++ 45 :: dash ++ fl ++ w2 ++ x ++ w3 ++ post.
+
+Lemma whole_cmd2_step k K d w1 dash fl w2 w3 v mask pre post :
+  In k gen_keys -> casing_of k K -> forallb ascii_digit d = true ->
+  forallb is_space w1 = true -> (dash = [] \/ dash = [45]) -> all_in cs_flag fl = true -> (1 <= length fl)%nat ->
+  forallb is_space w2 = true -> (1 <= length w2)%nat -> forallb is_space w3 = true ->
+  forallb nonspace_char v = true -> (1 <= length v)%nat -> forallb nonspace_char mask = true -> (1 <= length mask)%nat ->
+  forallb ctx_char pre = true -> forallb ctx_char post = true ->
+  hd_notin cs_nonspace (w3 ++ post) = true -> hd_notin py_space post = true ->
+  only_at gen_ci_table k (msg_cmd2 pre K d w1 dash fl w2 v w3 post) [length pre] = true ->
+  only_at gen_ci_table k (msg_cmd2 pre K d w1 dash fl w2 mask w3 post) [length pre] = true ->
+  others_absent k (msg_cmd2 pre K d w1 dash fl w2 v w3 post) = true ->
+  others_absent k (msg_cmd2 pre K d w1 dash fl w2 mask w3 post) = true ->
+  mask_password (msg_cmd2 pre K d w1 dash fl w2 v w3 post) mask = msg_cmd2 pre K d w1 dash fl w2 mask w3 post.
+Proof.
+  intros Hin Hcase Hd Hw1 Hdash Hfl Hlf Hw2 Hl2 Hw3 Hv Hlv Hmk Hlm Hpre Hpost Hh1 Hh2 Hov Hom Hav Ham.
+  destruct (gen_key_ok k Hin) as [Hne Hk].
+  pose proof (casing_ok_of k K Hk Hcase) as HK. pose proof (digits_in d Hd) as Hd'.
+  pose proof (spaces_in _ Hw1) as Hw1'. pose proof (spaces_in _ Hw2) as Hw2'. pose proof (spaces_in _ Hw3) as Hw3'.
+  assert (Hdash' : all_in [(45, 45)] dash = true) by (destruct Hdash as [-> | ->]; reflexivity).
+  assert (Hdl : (length dash <= 1)%nat) by (destruct Hdash as [-> | ->]; cbn; repeat constructor).
+  pose proof (all_in_impl _ _ _ nonspace_in Hv) as Hv'. pose proof (all_in_impl _ _ _ nonspace_in Hmk) as Hmk'.
+  pose proof (ctx_all _ Hpre) as Hpre'. pose proof (ctx_all _ Hpost) as Hpost'.
+  pose proof checks_cmd2 as Hch. rewrite forallb_forall in Hch. specialize (Hch k Hin).
+  apply andb_true_iff in Hch. destruct Hch as [Hco Hcs].
+  assert (Parts : forall x, all_in cs_nonspace x = true -> (1 <= length x)%nat ->
+            only_at gen_ci_table k (msg_cmd2 pre K d w1 dash fl w2 x w3 post) [length pre] = true ->
+            let S := K ++ d ++ w1 ++ 45 :: dash ++ fl ++ w2 ++ x ++ w3 ++ post in
+            conc gen_ci_table k (shape_of (shapeR_cmd2 (kcs_of k))) (pre ++ S) /\
+            (forall a' b', pre = a' ++ b' -> b' <> [] -> conc gen_ci_table k (ARun ctx_cs true :: shapeR_cmd2 (kcs_of k) ++ [ARun ctx_cs false]) (b' ++ S)) /\
+            conc gen_ci_table k [ARun ctx_cs false] post).
+  { intros x Hx' Hlx Hox.
+    pose proof (conc_parts gen_ci_table k Hne ctx_cs false pre
+                  [(AKey (kcs_of k), K); (ARun dig_cs false, d); (ARun py_space false, w1); (AOne [(45, 45)], [45]); (ARun [(45, 45)] false, dash);
+                   (ARun cs_flag true, fl); (ARun py_space true, w2); (ARun cs_nonspace true, x); (ARun py_space false, w3)]
+                  ctx_cs false post (msg_cmd2 pre K d w1 dash fl w2 x w3 post)) as P.
+    cbn zeta in P. apply P; clear P.
+    - reflexivity.
+    - valid_segs Hne; intros _.
+      + destruct fl; [inversion Hlf|discriminate].
+      + destruct w2; [inversion Hl2|discriminate].
+      + destruct x; [inversion Hlx|discriminate].
+    - intros a b E Hp. pose proof (only_at_spec _ _ _ _ Hox a b E Hp) as Hi. cbn [key_offsets fst snd is_key app Nat.add]. exact Hi. }
+  destruct (Parts v Hv' Hlv Hov) as (Cv & Cpre & Cpost). destruct (Parts mask Hmk' Hlm Hom) as (Cm & _ & _).
+  assert (Hrj : nth_error (pats k) 9 = Some (gen_tp2_9 k)) by reflexivity.
+  destruct (self_nomatch k _ 9 _ pre _ post Hin Hcs Hrj Cpre Cpost) as [Npre Npost].
+  unfold msg_cmd2.
+  apply (whole_frame k 9 (gen_tp2_9 k) (t2 mask) (shapeR_cmd2 (kcs_of k)) _ _ mask Hin eq_refl Hco Cv Cm);
+    [|apply (key_occurs k K pre _ Hk Hcase)|exact Hav|exact Ham].
+  replace (pre ++ K ++ d ++ w1 ++ 45 :: dash ++ fl ++ w2 ++ mask ++ w3 ++ post)
+    with (pre ++ (K ++ d ++ w1 ++ 45 :: dash ++ fl ++ w2) ++ mask ++ w3 ++ post) by norm_app2.
+  eapply (gm_sub_two_ctx gen_ci_table (gen_tp2_9 k) pre _ (K ++ d ++ w1 ++ 45 :: dash ++ fl ++ w2) v w3 post mask);
+    [cbv [gen_tp2_9]; gm_go|norm_app2|norm_app2| |cbn [gget Nat.eqb app]; reflexivity|norm_app2
+    |cbn [gget Nat.eqb app]; reflexivity|norm_app2|norm_app2|exact Npre|exact Npost].
+  destruct K, d, w1; discriminate.
+Qed.
+
+(* ====================================================================== *)
+(* --k v   (the value does not start with '-')           _FORMAT_PATTERNS_2[4] *)
+(* ====================================================================== *)
+Definition cs_dd_nodash : cset := filter (fun r => negb ((fst r =? 45) && (snd r =? 45)))
+  (flat_map (fun r : N * N => if (fst r <=? 45) && (45 <=? snd r) then [(fst r, 44); (46, snd r)] else [r]) cs_dd).
+Lemma dd_nodash_in c : dd_char c = true -> c <> 45 -> cmem c cs_dd_nodash = true.
+Proof.
+  unfold dd_char, bare_char, valid_cp. intros H Hc. apply andb_true_iff in H. destruct H as [H He].
+  apply andb_true_iff in H. destruct H as [H Hq]. apply andb_true_iff in H. destruct H as [Hv Hs]. apply N.leb_le in Hv.
+  by_cover (py_space ++ cs_quotes ++ [(61, 61)] ++ [(45, 45)]). rewrite !cmem_app, is_quote_cmem, !cmem_single in Hcov.
+  unfold is_space in Hs. apply negb_true_iff in Hs, Hq, He. rewrite Hs, Hq, He in Hcov.
+  replace (c =? 45) with false in Hcov by lia. rewrite !orb_false_r in Hcov. exact Hcov.
+Qed.
+
+Definition shapeR_dd (kcs : list cset) : asub :=
+  [AOne [(45, 45)]; AOne [(45, 45)]; AKey kcs; ARun dig_cs false; ARun py_space true; AOne cs_dd_nodash; ARun cs_dd false; ARun py_space false].
+Lemma checks_dd : forallb (fun k => check_others k (shape_of (shapeR_dd (kcs_of k))) 4 && check_self k (shapeR_dd (kcs_of k)) 4) gen_keys = true.
+Proof. vm_cast_no_check (eq_refl true). Qed.
+
+Definition msg_dd (pre K d w1 x w2 post : str) : str := pre ++ [45; 45] ++ K ++ d ++ w1 ++ x ++ w2 ++ post.
+
+Lemma whole_dd_step k K d w1 w2 v mask pre post :
+  In k gen_keys -> casing_of k K -> forallb ascii_digit d = true ->
+  forallb is_space w1 = true -> (1 <= length w1)%nat -> forallb is_space w2 = true ->
+  forallb dd_char v = true -> (1 <= length v)%nat -> hd_notin [(45, 45)] v = true ->
+  forallb dd_char mask = true -> (1 <= length mask)%nat -> hd_notin [(45, 45)] mask = true ->
+  forallb ctx_char pre = true -> forallb ctx_char post = true ->
+  hd_notin cs_dd (w2 ++ post) = true -> hd_notin py_space post = true ->
+  only_at gen_ci_table k (msg_dd pre K d w1 v w2 post) [(length pre + 2)%nat] = true ->
+  only_at gen_ci_table k (msg_dd pre K d w1 mask w2 post) [(length pre + 2)%nat] = true ->
+  others_absent k (msg_dd pre K d w1 v w2 post) = true ->
+  others_absent k (msg_dd pre K d w1 mask w2 post) = true ->
+  mask_password (msg_dd pre K d w1 v w2 post) mask = msg_dd pre K d w1 mask w2 post.
+Proof.
+  intros Hin Hcase Hd Hw1 Hl1 Hw2 Hv Hlv Hvd Hmk Hlm Hmd Hpre Hpost Hh1 Hh2 Hov Hom Hav Ham.
+  destruct (gen_key_ok k Hin) as [Hne Hk].
+  pose proof (casing_ok_of k K Hk Hcase) as HK. pose proof (digits_in d Hd) as Hd'.
+  pose proof (spaces_in _ Hw1) as Hw1'. pose proof (spaces_in _ Hw2) as Hw2'.
+  pose proof (all_in_impl _ _ _ dd_in Hv) as Hv'. pose proof (all_in_impl _ _ _ dd_in Hmk) as Hmk'.
+  pose proof (ctx_all _ Hpre) as Hpre'. pose proof (ctx_all _ Hpost) as Hpost'.
+  pose proof checks_dd as Hch. rewrite forallb_forall in Hch. specialize (Hch k Hin).
+  apply andb_true_iff in Hch. destruct Hch as [Hco Hcs].
+  assert (Parts : forall x, forallb dd_char x = true -> (1 <= length x)%nat -> hd_notin [(45, 45)] x = true ->
+            only_at gen_ci_table k (msg_dd pre K d w1 x w2 post) [(length pre + 2)%nat] = true ->
+            let S := [45; 45] ++ K ++ d ++ w1 ++ x ++ w2 ++ post in
+            conc gen_ci_table k (shape_of (shapeR_dd (kcs_of k))) (pre ++ S) /\
+            (forall a' b', pre = a' ++ b' -> b' <> [] -> conc gen_ci_table k (ARun ctx_cs true :: shapeR_dd (kcs_of k) ++ [ARun ctx_cs false]) (b' ++ S)) /\
+            conc gen_ci_table k [ARun ctx_cs false] post).
+  { intros x Hx Hlx Hxd Hox. destruct x as [|x0 x']; [inversion Hlx|].
+    cbn [forallb] in Hx. apply andb_true_iff in Hx. destruct Hx as [Hx0 Hx'].
+    assert (Hx0' : cmem x0 cs_dd_nodash = true).
+    { apply dd_nodash_in; [exact Hx0|]. cbn [hd_notin cmem] in Hxd. intros ->. discriminate. }
+    pose proof (all_in_impl _ _ _ dd_in Hx') as Hx''.
+    pose proof (conc_parts gen_ci_table k Hne ctx_cs false pre
+                  [(AOne [(45, 45)], [45]); (AOne [(45, 45)], [45]); (AKey (kcs_of k), K); (ARun dig_cs false, d); (ARun py_space true, w1);
+                   (AOne cs_dd_nodash, [x0]); (ARun cs_dd false, x'); (ARun py_space false, w2)]
+                  ctx_cs false post (msg_dd pre K d w1 (x0 :: x') w2 post)) as P.
+    cbn zeta in P. apply P; clear P.
+    - reflexivity.
+    - valid_segs Hne. intros _. destruct w1; [inversion Hl1|discriminate].
+    - intros a b E Hp. pose proof (only_at_spec _ _ _ _ Hox a b E Hp) as Hi. cbn [key_offsets fst snd is_key app].
+      clear - Hi. destruct Hi as [Hi|[]]. left. rewrite <- Hi. cbn [length]. lia. }
+  destruct (Parts v Hv Hlv Hvd Hov) as (Cv & Cpre & Cpost). destruct (Parts mask Hmk Hlm Hmd Hom) as (Cm & _ & _).
+  assert (Hrj : nth_error (pats k) 4 = Some (gen_tp2_4 k)) by reflexivity.
+  destruct (self_nomatch k _ 4 _ pre _ post Hin Hcs Hrj Cpre Cpost) as [Npre Npost].
+  unfold msg_dd.
+  apply (whole_frame k 4 (gen_tp2_4 k) (t2 mask) (shapeR_dd (kcs_of k)) _ _ mask Hin eq_refl Hco Cv Cm);
+    [| |exact Hav|exact Ham].
+  2:{ replace (pre ++ [45; 45] ++ K ++ d ++ w1 ++ v ++ w2 ++ post) with ((pre ++ [45; 45]) ++ K ++ (d ++ w1 ++ v ++ w2 ++ post)) by norm_app2.
+      apply (key_occurs k K _ _ Hk Hcase). }
+  replace (pre ++ [45; 45] ++ K ++ d ++ w1 ++ mask ++ w2 ++ post)
+    with (pre ++ ([45; 45] ++ K ++ d ++ w1) ++ mask ++ w2 ++ post) by (rewrite <- !app_assoc; reflexivity).
+  eapply (gm_sub_two_ctx gen_ci_table (gen_tp2_4 k) pre _ ([45; 45] ++ K ++ d ++ w1) v w2 post mask);
+    [cbv [gen_tp2_4]; gm_go|rewrite <- !app_assoc; reflexivity|rewrite <- !app_assoc; reflexivity|discriminate
+    |cbn [gget Nat.eqb app]; reflexivity|norm_app2
+    |cbn [gget Nat.eqb app]; reflexivity|norm_app2|norm_app2|exact Npre|exact Npost].
+Qed.
